@@ -353,19 +353,44 @@ def check_eps_translation(ctx, rep, f, rule='R-EPS'):
     loop = loops[0]
     src = u(loop.iter.func.value)
     opnd = src.rsplit('.', 1)[0]
-    tgt = loop.target
-    a = u(tgt.elts[0].elts[1]) if isinstance(tgt, ast.Tuple) and isinstance(tgt.elts[0], ast.Tuple) else None
-    trans = [n for n in ast.walk(loop) if isinstance(n, ast.IfExp)]
-    stores = [n for n in ast.walk(loop) if isinstance(n, ast.Subscript) and isinstance(n.ctx, (ast.Store, ast.Load)) and u(n.value) == params[0]]
-    ok = False
-    for t in trans:
-        tt = u(t.test).replace(' ', '')
-        if tt in ('{}=={}.epsilon'.format(a, opnd), '{}.epsilon=={}'.format(opnd, a)) and u(t.body) == 'epsilon' and u(t.orelse) == a:
-            ok = True
-    if ok:
-        rep.holds(rule, f, trans[0], 'operand epsilon moves are re-keyed with the result epsilon, other symbols are kept')
+    from .. import abseval
+    stores = [n for n in ast.walk(loop) if isinstance(n, ast.Subscript) and u(n.value) == params[0] and isinstance(n.slice, ast.Tuple) and len(n.slice.elts) == 2]
+    if not stores:
+        rep.undecided(rule, f, loop, 'no keyed store into {} inside the copy loop'.format(params[0]))
+        return
+    outcome = {}
+    try:
+        for sym in ('OPEPS', 'OTHER'):
+            env = {'epsilon': 'RESEPS', opnd + '.epsilon': 'OPEPS'}
+            tgt = loop.target
+            if not (isinstance(tgt, ast.Tuple) and len(tgt.elts) == 2):
+                raise abseval.Unsupported('loop target')
+            k, v = tgt.elts
+            if isinstance(k, ast.Tuple) and len(k.elts) == 2 and all(isinstance(x, ast.Name) for x in k.elts):
+                env[k.elts[0].id], env[k.elts[1].id] = 'SRC', sym
+            elif isinstance(k, ast.Name):
+                env[k.id] = ('SRC', sym)
+            else:
+                raise abseval.Unsupported('loop key target')
+            if isinstance(v, ast.Name):
+                env[v.id] = 'TARGETS'
+            out = abseval.run_block(loop.body, env)
+            keys = set()
+            for st in stores:
+                kv = abseval.ev(st.slice, out)
+                keys.add(kv)
+            if len(keys) != 1:
+                raise abseval.Unsupported('several different keys')
+            outcome[sym] = keys.pop()
+    except (abseval.Unsupported, KeyError, TypeError) as e:
+        rep.undecided(rule, f, loop, 'copy loop outside the fragment: {}'.format(e))
+        return
+    if outcome['OPEPS'] == ('SRC', 'RESEPS') and outcome['OTHER'] == ('SRC', 'OTHER'):
+        rep.holds(rule, f, loop, 'operand epsilon moves are re-keyed with the result epsilon, other symbols are kept (both cases evaluated on the loop body)')
+    elif outcome['OPEPS'] != ('SRC', 'RESEPS'):
+        rep.violates(rule, f, loop, 'the operand transitions are copied without translating {}.epsilon into the epsilon of the result (an epsilon move of the operand is stored under the key {})'.format(opnd, outcome['OPEPS']))
     else:
-        rep.violates(rule, f, loop, 'the operand transitions are copied without translating {}.epsilon into the epsilon of the result'.format(opnd))
+        rep.violates(rule, f, loop, 'a transition on an ordinary symbol of the operand is stored under the key {}'.format(outcome['OTHER']))
 
 
 def check_universe_monotone(ctx, rep, funcs, attr='V', rule=RULE + '.universe'):
